@@ -45,12 +45,18 @@ type scriptConn struct {
 	blocks  []int // complete reply frames written at each blocking point (a Read that had to wait for a new segment)
 	closed  int
 	wantBlk bool
+	lag     time.Duration
 	rerr    string // "", "closed", "reset": the error the read at the end of the stream returns (default EOF)
 	wfail   int    // >0: the wfail-th and every later Write fails
 	writes  int
 }
 
 func (c *scriptConn) Read(b []byte) (int, error) {
+	if c.lag > 0 {
+		// the client is slow to send its first request: the connection is that old when the request is executed
+		time.Sleep(c.lag)
+		c.lag = 0
+	}
 	for len(c.segs) > 0 && len(c.segs[0]) == 0 {
 		// the current segment is used up: the loop now waits for bytes that have not been sent yet
 		c.segs = c.segs[1:]
@@ -378,6 +384,7 @@ type serveCase struct {
 	blk       bool
 	wfail     int
 	rerr      string
+	lag       time.Duration
 	segs      [][]byte
 	script    []scriptedResult
 }
@@ -457,6 +464,9 @@ func parseServeCase(toks []string) *serveCase {
 			c.wfail, _ = strconv.Atoi(t[6:])
 		case strings.HasPrefix(t, "rerr="):
 			c.rerr = t[5:]
+		case strings.HasPrefix(t, "lag="):
+			ms, _ := strconv.Atoi(t[4:])
+			c.lag = time.Duration(ms) * time.Millisecond
 		}
 	}
 	if len(secs) > 1 {
@@ -499,7 +509,7 @@ func newServerFor(c *serveCase, log *eventLog) (*redis.Server, *double) {
 func runServe(c *serveCase) *serveResult {
 	log := &eventLog{}
 	srv, d := newServerFor(c, log)
-	conn := &scriptConn{log: log, segs: c.segs, wfail: c.wfail, rerr: c.rerr}
+	conn := &scriptConn{log: log, segs: c.segs, wfail: c.wfail, rerr: c.rerr, lag: c.lag}
 	res := &serveResult{}
 	done := make(chan struct{})
 	go func() {
